@@ -152,12 +152,12 @@ def _check_on(S, case, rebuild=True):
     if case.get("cache"):
         # with neighbor caching on: short-lived filter callables of different behaviour must not be confused
         for name, fn, first in (("bft", B.bft, bft), ("dft_recursive", D.dft_recursive, dfr), ("dft_iterative", D.dft_iterative, dfi)):
-            for _ in range(2):
+            for mk in (S.fresh_ff, S.fresh_method_ff):
                 try:
-                    fn(S.uni, start, direction_sensitive=S.d, unknown_handling=S.u, ff_via=S.fresh_ff(accept_all=True))
+                    fn(S.uni, start, direction_sensitive=S.d, unknown_handling=S.u, ff_via=mk(accept_all=True))
                 except NotImplementedError:
                     pass  # the accept-all filter may reach an unknown-class link the real filter prunes (ERROR mode)
-                again = S.idx(fn(S.uni, start, direction_sensitive=S.d, unknown_handling=S.u, ff_via=S.fresh_ff()))
+                again = S.idx(fn(S.uni, start, direction_sensitive=S.d, unknown_handling=S.u, ff_via=mk()))
                 require(again == first, "order-depends-on-earlier-call", f"{name} (caching on): {first} first, {again} after a call with another short-lived filter")
     junk = [object() for _ in range(257)] + [graphs.build({"nv": 3, "edges": [[0, 0, 1]], "reassign": []})]
     if rebuild:
